@@ -558,6 +558,8 @@ func (t *wal) TruncateLog(lastSafeOffset int64) (int64, error) { //nolint:revive
 				}
 
 				err = segment.Close()
+				t.lastAppendedOffset.Store(lastSafeOffset)
+				t.lastSyncedOffset.Store(lastSafeOffset)
 				return lastSafeOffset, err
 			default:
 				// The entire segment can be discarded
